@@ -192,6 +192,9 @@ func run(prop, tier, repo, verif string, overlay map[string][]byte, rule rules.R
 		variants = rules.RunVariants(prop, repo, verif)
 		if vr, ok := variants.(*rules.VariantReport); ok && vr != nil {
 			for _, v := range vr.Results {
+				if v.Outcome == "false-alarm" {
+					res.Undec("selftest", "benign variant "+v.Name, "", "a behaviour-preserving refactoring is reported as a violation ("+v.Fired+"): the rule demands more than the property states")
+				}
 				if v.Outcome == "missed" {
 					res.Undec("selftest", "variant "+v.Name, "", "seeded variant was not reported by the rule it targets ("+v.Expect+"): the checker lost its teeth")
 				}
